@@ -59,6 +59,8 @@ type AreaCentroidCalculator struct {
 	basePt        geom.Coord
 	triangleCent3 geom.Coord // temporary variable to hold centroid of triangle
 	areasum2      float64    // Partial area sum
+	areaAbsSum2   float64    // sum of the magnitudes of the products that areasum2 is made of
+	triangles     int        // number of triangles added to areasum2
 	cg3           geom.Coord // partial centroid sum
 
 	centSum     geom.Coord // data for linear centroid computation, if needed
@@ -87,7 +89,12 @@ func (calc *AreaCentroidCalculator) GetCentroid() geom.Coord {
 		return cent
 	}
 
-	if math.Abs(calc.areasum2) > 0.0 {
+	// The triangles of a polygon without area (a ring that runs out and back
+	// along the same path, say) cancel exactly only in exact arithmetic: the
+	// floating-point sum of the 2n products it is made of is off by up to about
+	// n ulps of the sum of their magnitudes. An area within that bound is
+	// rounding residue, not an area to divide by.
+	if math.Abs(calc.areasum2) > float64(calc.triangles+8)*0x1p-52*calc.areaAbsSum2 {
 		cent[0] = calc.cg3[0] / 3 / calc.areasum2
 		cent[1] = calc.cg3[1] / 3 / calc.areasum2
 	} else {
@@ -172,6 +179,9 @@ func (calc *AreaCentroidCalculator) addTriangle(p0, p1, p2 geom.Coord, isPositiv
 	calc.cg3[0] += sign * area2 * calc.triangleCent3[0]
 	calc.cg3[1] += sign * area2 * calc.triangleCent3[1]
 	calc.areasum2 += sign * area2
+	// area2 is itself the difference of two products (see area2)
+	calc.areaAbsSum2 += math.Abs((p1[0]-p0[0])*(p2[1]-p0[1])) + math.Abs((p2[0]-p0[0])*(p1[1]-p0[1]))
+	calc.triangles++
 }
 
 // Returns three times the centroid of the triangle p1-p2-p3.
